@@ -399,8 +399,9 @@ class Program:
             return key
         if (f.module, key) in getattr(self, "_known_pairs", set()) or not hasattr(self, "_known_pairs"):
             return key
+        # who names it: calls, and references handed on as a value (callbacks, functools.partial)
         callers = sorted(g.key for g in self.funcs.values() if g is not f and any(
-            isinstance(c, ast.Call) and ((isinstance(c.func, ast.Name) and c.func.id == f.name) or (isinstance(c.func, ast.Attribute) and c.func.attr == f.name))
+            (isinstance(c, ast.Name) and c.id == f.name and isinstance(c.ctx, ast.Load)) or (isinstance(c, ast.Attribute) and c.attr == f.name)
             for c in walk_no_nested(g.node)))
         callers = [c for c in callers if (self.funcs[c].module, c) in self._known_pairs]
         return callers[0] if len(set(callers)) == 1 else key
